@@ -356,13 +356,20 @@ func (s lz2Spec) build() (pieces []string, b *lz2b) {
 	case "rec", "redecl-rec", "deaddefn":
 		// self tail call: (F (- cnt 1) args..)
 		all := prepend(lz2Cnt, ps)
+		cntArg := func(raw string) lz2ArgSpec {
+			a := lz2ArgSpec{kind: "raw", raw: raw}
+			if s.named != "" {
+				a.label = "cnt" // all arguments by name, or none
+			}
+			return a
+		}
 		if s.route == "redecl-rec" {
 			oldp := prepend(lz2Cnt, lz2Complement(ps))
 			old := b.newFunc(oldp, s.rest)
 			pieces = append(pieces, lz2FnText(s.decl, "F", old, oldp, s.rest, "0"))
 		}
 		f := b.newFunc(all, s.rest)
-		inner := b.call("F", prependArg(lz2ArgSpec{kind: "raw", raw: "(- cnt 1)"}, s.testArgs(ps)))
+		inner := b.call("F", prependArg(cntArg("(- cnt 1)"), s.testArgs(ps)))
 		tail := "(cond (<= cnt 0) 0 " + inner + ")"
 		if s.route == "deaddefn" {
 			// an inner definition of the same name, with the lazy positions complemented, in a branch never taken
@@ -371,7 +378,7 @@ func (s lz2Spec) build() (pieces []string, b *lz2b) {
 			tail = "(cond (<= cnt 0) 0 (< cnt 5) " + inner + " (begin " + lz2FnText("defn", "F", d, dp, s.rest, "0") + " 0))"
 		}
 		pieces = append(pieces, lz2FnText(s.decl, "F", f, all, s.rest, uses(all)+" "+tail))
-		pieces = append(pieces, b.call("F", prependArg(lz2ArgSpec{kind: "raw", raw: "1"}, s.testArgs(ps))))
+		pieces = append(pieces, b.call("F", prependArg(cntArg("1"), s.testArgs(ps))))
 	case "taillet", "tailparam":
 		// the function's own name denotes ANOTHER function (lazy positions complemented) where it is
 		// called in tail position: a let variable, or a parameter
@@ -452,7 +459,7 @@ func lz2Specs() []lz2Spec {
 		}
 	}
 	// 2. typed declarations called with arguments given by name, in the declared and in the reverse order
-	for _, r := range []string{"direct", "alias", "incaller", "redecl"} {
+	for _, r := range []string{"direct", "alias", "incaller", "redecl", "rec"} {
 		for _, nm := range []string{"fwd", "rev"} {
 			masks(3, func(n, m int) {
 				for _, p := range []string{"none", "once", "later2"} {
